@@ -110,6 +110,9 @@ def r1_no_escape(cx):
         cx.require(len(fo) == 1 and U(fo[0].func.value) == broker and U(fo[0].args[0]) == comp and not guard_texts(fo[0], stop=tr), tr,
                    "finally fires the observers exactly once for the loop's component, unconditionally",
                    construct=short(fo[0]) if fo else "finally without fire_observers")
+        allfo = [c for c in ast.walk(loop) if isinstance(c, ast.Call) and call_attr(c) == "fire_observers"]
+        cx.require(len(allfo) == 1, allfo[-1] if allfo else tr, "observers are fired exactly once per attempted component (only in finally)",
+                   construct="%d fire_observers calls in the execution loop" % len(allfo))
         for c in find_calls(tr.finalbody):
             if not is_benign_call(c):
                 cx.unknown(c, "call inside finally of run_components is not in the benign-call table")
